@@ -144,6 +144,33 @@ def handleLIN (st : St) (n : Nat) (toks : List String) (reqs : Array LReq) : Res
         if !ok then
           let f := fail st n "C12" s!"the outcomes of one log's requests are not explained by that log's requests alone (case {cname}): requests naming another log changed them"
           st := f.st; outs := outs ++ f.out
+  -- the list of known logs after the execution: exactly the logs that hold a checkpoint, each once (a refused or a
+  -- conflicting request leaves no trace in it)
+  let loglist := (get "loglist").getD "!"
+  if loglist != "!" then
+    let listed := if loglist == "-" then [] else loglist.splitOn ","
+    let holding := ((final.filter (fun p => match p.2 with | .val _ => true | _ => false)).map (fun p => hx p.1)).toArray.qsort (· < ·) |>.toList
+    if listed != holding then
+      let why := if listed.eraseDups.length != listed.length then "a log is listed more than once" else "it is not the set of logs that hold a checkpoint"
+      let f := fail st n "C03" s!"after concurrent requests (case {cname}) the list of known logs is wrong: {why}"
+      st := f.st; outs := outs ++ f.out
+      let f := fail st n "C16" s!"the log list after concurrent requests (case {cname}) is not exactly the set of logs with an accepted update: {why}"
+      st := f.st; outs := outs ++ f.out
+      let f := fail st n "C05" s!"concurrent requests (case {cname}) left the list of known logs in a state no sequential execution produces: {why}"
+      st := f.st; outs := outs ++ f.out
+  -- requests that went through the adapter omniwitness.Main uses: once everything has finished, what the adapter
+  -- reports as a log's latest checkpoint is what storage holds (nothing it remembers may be older or newer)
+  let aview := (get "adapter").getD "-"
+  if aview != "-" then
+    st := st.bump "conc.through-adapter"
+    match parseStates aview with
+    | some av =>
+      if statesShow av != statesShow final then
+        let f := fail st n "C13" s!"after concurrent requests through the adapter (case {cname}) the adapter reports a latest checkpoint that is not the stored one: every later feed cycle starts from a wrong old size"
+        st := f.st; outs := outs ++ f.out
+        let f := fail st n "C05" s!"after concurrent requests through the adapter (case {cname}) a read through the adapter does not return the stored checkpoint"
+        st := f.st; outs := outs ++ f.out
+    | none => pure ()
   -- the small-step model of the in-memory store (Model/StoreProtocol.lean, the system `C05_linearizable_inmem`
   -- is about) replayed on the schedule the implementation actually ran: snapshot at WriteOps, compare-and-set at
   -- Set; it must predict, per request, acceptance / the refusal verdict / the storage conflict
